@@ -18,12 +18,13 @@ inductive Val where
   deriving DecidableEq, Repr, Inhabited
 
 inductive Proj where
-  | fst | snd
+  | fst | snd | id
   deriving DecidableEq, Repr, Inhabited
 
 def Proj.app : Proj → Val → Val
   | .fst, .node l _ => l
   | .snd, .node _ r => r
+  | .id, v => v
   | _, v => v
 
 inductive Acc where
@@ -111,6 +112,12 @@ def accOfShape (shape chain : String) (k0 : Nat) : Option Acc :=
   | "dyn-map-dyn-map", _ => some (.ptr (.dyn (.map (.ptr (.dyn (.map (.ptr .cell) .fst))) .snd)))
   | "convert", _ => some (.convert (.ptr (.dyn (.map (.ptr .cell) .snd))))
   | "constant", _ => some (.const (.leaf k0))
+  | "map-const", "fst" => some (.map (.const (cfgVal k0)) .fst)
+  | "map-const", "snd" => some (.map (.const (cfgVal k0)) .snd)
+  | "map-const", "id" => some (.map (.const (.leaf k0)) .id)
+  | "map2-const", "fst.snd" => some (.map (.map (.const (cfgVal k0)) .fst) .snd)
+  | "dyn-map-const", "fst" => some (.ptr (.dyn (.map (.const (cfgVal k0)) .fst)))
+  | "map-arcself", "id" => some (.map .cell .id)
   | "map1-other-thread", _ => some (.map (.ptr .cell) .fst)
   | "keepalive", _ => some (.map (.ptr .cell) .snd)
   | _, _ => none
